@@ -28,7 +28,7 @@ TARGETS = ['valjean.gavroche.stat_tests.bonferroni:TestBonferroni.__init__',
            'valjean.gavroche.stat_tests.bonferroni:TestResultHolmBonferroni.__bool__',
            'valjean.gavroche.stat_tests.bonferroni:TestResultHolmBonferroni.oracles']
 BOUNDS = {
-    'quick': {'bins': 'm <= 3 (shapes (1,), (2,), (3,), (1,2))  and (2,2) for Bonferroni', 'datasets_compared': '1; 2 for m <= 2',
+    'quick': {'bins': 'm <= 3 (shapes (1,), (2,), (3,), (1,2))  and (2,2), C- or Fortran-ordered, for Bonferroni and for Holm-Bonferroni separately', 'datasets_compared': '1; 2 for m <= 2',
               'p-values': 'symbolic reals in [0,1] or NaN (ties, zeros and ones included)', 'alpha': 'symbolic real in (0,1)',
               'student_jobs': 'real TestStudent as first test: shapes (2,), finite cells, ndf None',
               'shape-independence twins': '(2,)~(1,2)'},
@@ -92,7 +92,11 @@ def _stub_test(pvals, size):
 def _pvals(ex, shape, nds):
     out = []
     for k in range(nds):
-        a = sym_real_array(ex, f'p{k}', shape, special=True)
+        if len(shape) >= 2 and min(shape) >= 2 and ex.flag(f'p{k}-not-C-ordered'):
+            # a transposed view (Fortran-ordered memory), as a user-made first test may hand out
+            a = sym_real_array(ex, f'p{k}', tuple(reversed(shape)), special=True).T
+        else:
+            a = sym_real_array(ex, f'p{k}', shape, special=True)
         for c in cells(a):
             if ex.symbolic:
                 ex.side(O.band(O.bnot(O.isinf(c)), O.bor(O.isnan(c), O.band(c >= 0, c <= 1))).t)
@@ -310,6 +314,7 @@ def jobs(tier):
                 out.append((f'{kind}-{shape}-n{nds}', _job, dict(kind=kind, shape=shape, nds=nds, timeout_ms=t)))
     if tier == 'quick':
         out.append(('bonf-(2, 2)-n1', _job, dict(kind='bonf', shape=(2, 2), nds=1, timeout_ms=t)))
+        out.append(('holm-(2, 2)-n1', _job, dict(kind='holm', shape=(2, 2), nds=1, timeout_ms=t)))
     twins = [((2,), (1, 2))] if tier == 'quick' else [((2,), (1, 2)), ((3,), (3, 1)), ((3,), (1, 3))]     # 4 cells: > 40 min per job
     for a, b in twins:
         out.append((f'twin-{a}-{b}', _job, dict(kind='twin', shape=a, shape_b=b, timeout_ms=t)))
